@@ -57,6 +57,10 @@ impl BytesMut {
     #[verifier::external_body]
     pub fn put_slice(&mut self, s: &[u8]) ensures final(self)@ == old(self)@ + s@ { unimplemented!() }
     #[verifier::external_body]
+    pub fn put_i64(&mut self, v: i64) ensures final(self)@ == old(self)@ + be_bytes(i64_nat(v), 8) { unimplemented!() }
+    #[verifier::external_body]
+    pub fn put_i32(&mut self, v: i32) ensures final(self)@ == old(self)@ + be_bytes(i32_nat(v), 4) { unimplemented!() }
+    #[verifier::external_body]
     pub fn extend_from_slice(&mut self, s: &[u8]) ensures final(self)@ == old(self)@ + s@ { unimplemented!() }
     #[verifier::external_body]
     pub fn reserve(&mut self, n: usize) ensures final(self)@ == old(self)@ { unimplemented!() }
